@@ -198,13 +198,19 @@ def make_exc(kind, item):
     cls = KINDS[kind]
     return cls(item) if cls is InjectedError else cls(f"injected failure for item {item}")
 
+ALIASES = {"None": None, "empty-str": "", "empty-tuple": (), "zero-float": 0.0, "False": False}   # legal items that are falsy / None
+
 class TagFilter:
     """f(item): raises for items in `raising`; yields `fan[item]` outputs (as a generator) for items in `fan`;
-    otherwise returns the single output (item, 0, worker)."""
-    def __init__(self, raising=(), fan=None, delay=0.0, kinds=None):
+    otherwise returns the single output (item, 0, worker). Items are small ints; `alias` sends some of them through the
+    Multiprocessor as another value (None, '', (), 0.0, False - any finite stream of items is legal) and maps them back here."""
+    def __init__(self, raising=(), fan=None, delay=0.0, kinds=None, alias=None):
         self.raising, self.fan, self.delay = set(raising), dict(fan or {}), delay
         self.kinds = dict(kinds or {})   # item -> name in KINDS (default: InjectedError)
+        self.alias_inv = {ALIASES[v]: int(k) for k, v in (alias or {}).items()}
     def filter(self, item):
+        if self.alias_inv and not (isinstance(item, int) and not isinstance(item, bool)):
+            item = self.alias_inv.get(item, item)
         if self.delay:
             import time; time.sleep(self.delay)
         w = who()
@@ -216,6 +222,7 @@ class TagFilter:
     def expected(self, items):
         out = []
         for it in items:
+            if self.alias_inv and not (isinstance(it, int) and not isinstance(it, bool)): it = self.alias_inv.get(it, it)
             if it in self.raising: continue
             out.extend((it, j) for j in range(self.fan[it])) if it in self.fan else out.append((it, 0))
         return out
